@@ -518,21 +518,31 @@ Definition print_surf (s : surf_line) : list string :=
          +++ comment_str (sl_comment s)]
   end.
 
-Definition print_counted (kw : string) (x : option (N * list Z)) : list string :=
+(* VolumeT4.__str__ builds a list of parameters (words and numbers) and joins their str()
+   with blanks: the token stream of a volume line *)
+Inductive tok := TW (s : string) | TN (n : N) | TZ (z : Z) | TNone.
+
+Definition tok_str (t : tok) : string :=
+  match t with TW s => s | TN n => dec n | TZ z => dec_Z z | TNone => "None" end.
+
+Definition counted_tokens (kw : string) (x : option (N * list Z)) : list tok :=
   match x with
   | None => []
-  | Some (n, l) => kw :: dec n :: map dec_Z l
+  | Some (n, l) => TW kw :: TN n :: map TZ l
   end.
 
+Definition opt_tok (x : option Z) : tok := match x with Some k => TZ k | None => TNone end.
+
+Definition volu_tokens (v : volu_line) : list tok :=
+  [TW "EQUA"] ++ counted_tokens "PLUS" (vl_plus v) ++ counted_tokens "MINUS" (vl_minus v)
+  ++ (match vl_op v with
+      | None => []
+      | Some (op, n, args) => TW (op_name op) :: TN n :: map opt_tok args
+      end)
+  ++ (if vl_fictive v then [TW "FICTIVE"] else []).
+
 Definition print_volu (v : volu_line) : string :=
-  let words :=
-    ["EQUA"] ++ print_counted "PLUS" (vl_plus v) ++ print_counted "MINUS" (vl_minus v)
-    ++ (match vl_op v with
-        | None => []
-        | Some (op, n, args) => op_name op :: dec n :: map opt_str args
-        end)
-    ++ (if vl_fictive v then ["FICTIVE"] else []) in
-  "VOLU " +++ dec_Z (vl_id v) +++ " " +++ join " " words +++ " ENDV"
+  "VOLU " +++ dec_Z (vl_id v) +++ " " +++ join " " (map tok_str (volu_tokens v)) +++ " ENDV"
   +++ comment_str (map origin_str (vl_comment v)).
 
 Definition geometry_head : list string :=
